@@ -98,6 +98,10 @@ def check_shape(t, shape, style_names=None, iter_names=None, text=True):
         its = childiters(idm)
         t.c["states"] += 1
         h = m.height(start)
+        # ONE RenderTree constructed for another node with other settings, iterated once, then re-configured through its
+        # public attributes before each use: must render like a freshly constructed one
+        rrt = anytree.RenderTree(nodes[0], style=anytree.DoubleStyle(), childiter=lambda cs: list(cs)[:1], maxlevel=1)
+        list(rrt)
         for sname, style in sty.items():
             if style_names and sname not in style_names:
                 continue
@@ -118,8 +122,14 @@ def check_shape(t, shape, style_names=None, iter_names=None, text=True):
                     if ml is not None and 1 <= ml <= h:
                         t.c["maxlevel_cuts"] += 1
                     why = None
+                    rrt.node, rrt.style, rrt.childiter, rrt.maxlevel = nodes[start], sobj, real_it, ml
+                    got2 = [(r.pre, r.fill, idm(r.node)) for r in rrt]
+                    t.c["reconfigured_renderings"] += 1
                     if got != exp:
                         why = "rows differ from the definition"
+                    elif got2 != exp:
+                        why = "rows of a RenderTree re-configured through its public attributes differ from a fresh one's"
+                        got = got2
                     else:
                         dec = decode(got, sobj)
                         if dec is None:
@@ -235,7 +245,8 @@ def check_reprs(t, shape):
     for sep in ("/", "|", "::"):
         NodeS = type("Node", (anytree.Node,), {"separator": sep})
         for rot in range(len(ATTRSETS)):
-            names = ["n%d" % i if (i + rot) % 3 else i for i in range(m.n)]
+            # names of unusual but legal types: the repr shows str(name) of every node on the path
+            names = [("n%d" % i, i, ("t%d" % i,), "n%d" % i, ("p", i), (), "n%d" % i, None, 2.5, b"b")[(i * 3 + rot) % 10] for i in range(m.n)]
             attrs = [ATTRSETS[(i + rot) % len(ATTRSETS)] for i in range(m.n)]
             nodes = [NodeS(names[i], **attrs[i]) for i in range(m.n)]
             anys = [anytree.AnyNode(**attrs[i]) for i in range(m.n)]
@@ -312,7 +323,7 @@ def run(tier):
     jobs = [(MOD, "job", {"shapes": c, "text": True, "reprs": True}) for c in core.chunks(shapes[::-1], core.NPROC * 6)]
     # the same inputs once more in the opposite order and another chunking: results must not depend on what ran before
     jobs += [(MOD, "job", {"shapes": c, "text": True, "reprs": False}) for c in core.chunks(shapes, core.NPROC * 2 + 1)]
-    core.run_pool(jobs + [("mc.capacity", "job", {"pid": "C09"})], 0, into=t)
+    core.run_pool(jobs + [("mc.capacity", "job", {"pid": "C09"}), ("mc.positional", "job", {"pid": "C09"})], 0, into=t)
     core.run_pool([(MOD, "job", {"shapes": c, "text": False, "reprs": False}) for c in core.chunks(tree.shapes_upto(5), core.NPROC)], 1, into=t)
     cov = {
         "states": t.c["states"], "transitions": t.c["evaluations"], "traces_validated_against_impl": t.c["evaluations"],
@@ -326,5 +337,5 @@ def run(tier):
         "bounds": {"max_nodes": nmax, "shapes": len(shapes)},
     }
     return {"tally": t, "coverage": cov,
-            "guards": ("capacity_checks", "nontrivial", "childiter_changes_rows", "maxlevel_cuts", "text_renderings", "reprs", "render_reuse_checks"),
+            "guards": ("positional_calls", "reconfigured_renderings", "capacity_checks", "nontrivial", "childiter_changes_rows", "maxlevel_cuts", "text_renderings", "reprs", "render_reuse_checks"),
             "assumptions": ["bounded tree size; styles of equal segment width (as the statement requires)"]}
